@@ -665,6 +665,20 @@ class Engine(Interp):
                                     st.cons.add_eq(LinForm.var((cell, (("v", vi), k) + pth)) - LinForm.var((loc[0], loc[1] + pth)))
                     return [(st, val, (cell, ()), None)]
             fb = self.prog.bodies.get(path)
+            if fb is None and len(args) == 1 and path.rsplit("::", 1)[-1] in ("from", "into", "to_vec", "to_owned", "into_vec"):
+                # a std conversion of an array / slice into an owned vector used as a callable (`map(Vec::from)`): same length, same elements
+                v, loc = args[0]
+                if isinstance(v, Ref):
+                    try:
+                        v = self.read_loc(st, (v.cell, v.path))
+                    except Exception:
+                        v = None
+                rty = (clo.callee.get("path", "") or "") + " " + " ".join(str(a.get("path", "")) for a in (clo.callee.get("args") or [])[:1] if isinstance(a, dict))
+                if isinstance(v, Arr) and ("Vec" in rty or path.rsplit("::", 1)[-1] in ("to_vec", "into_vec")):
+                    cell = ("T", c.frame.uid, c.bb, ("conv", len(c.results)))
+                    st.kill_cell(cell)
+                    st.cells[cell] = Arr(v.len, v.elem, v.cells, "vec")
+                    return [(st, st.cells[cell], (cell, ()), None)]
             if fb is None or fb.kind == "closure":
                 return None
             frame = c.frame
